@@ -38,6 +38,7 @@ ASSUMPTIONS = ['POSIX semantics of rename (atomic replace), link (EEXIST), open(
                'the part file is UTF-8 in text mode; nothing is required of the part file after a crash']
 
 
+SELFTEST_MUTANT = 'drop-fsync'
 REQUIRED_PROBES = ['crash_between_link_and_unlink', 'crash_with_bytes_only_in_user_buffer',
                    'crash_with_strict_prefix_in_part_file', 'flush_needed_multiple_raw_writes',
                    'power_loss_drops_unsynced_tail', 'crash_after_publish', 'recovery_with_part_hardlinked_to_dest']
@@ -51,6 +52,8 @@ def fidelity_selftest(seed, n=300):
         case = S.gen_workload(_c.rng_for(seed, 'C04-fidelity', i), faults=bool(i % 2))
         if case.get('buffering') == 1 and not case.get('text_mode'):
             continue
+        case.pop('reuse', None)      # simulator-only dimensions
+        case.pop('env', None)
         k += 1
         d = S.fidelity_diff(case)
         if d:
@@ -58,7 +61,21 @@ def fidelity_selftest(seed, n=300):
     if bad:
         from simkit.driver import HarnessError
         raise HarnessError('simfs disagrees with the real kernel on %d of %d fault-free saves, e.g. %r' % (len(bad), k, bad[0]))
-    return '%d fault-free saves executed on the real kernel (tmp dir) and on simfs: listing, bytes, mode, call sequence, exception agree' % k
+    msg = '%d fault-free saves executed on the real kernel (tmp dir) and on simfs: listing, bytes, mode, call sequence, exception agree' % k
+    # process-death view on the real kernel, end to end (forked child _exit()s before its k-th call)
+    tried = 0
+    for i in range(24):
+        case = S.gen_workload(_c.rng_for(seed, 'C04-realcrash', i), faults=False)
+        if (case.get('buffering') == 1 and not case.get('text_mode')) or S.body_raises(case):
+            continue
+        case.pop('reuse', None)
+        case.pop('env', None)
+        t, problems = S.real_crash_enumeration(case)
+        tried += t
+        if problems:
+            from simkit.driver import HarnessError
+            raise HarnessError('REAL kernel crash run disagrees with the property (stub or code?): %s' % problems[0])
+    return msg + '; %d forked real-kernel crash points (child _exit before each os-level call): destination always old or new' % tried
 
 
 def setup(root):
